@@ -8,7 +8,7 @@ use crate::sched::SchedSpec;
 use locustdb_simrt::core::Rng;
 use std::collections::BTreeMap;
 
-pub const CLAIMED: &[&str] = &["C01", "C07", "C08", "C09", "C10", "C11", "C12", "C13", "C14", "C15", "C18"];
+pub const CLAIMED: &[&str] = &["C01", "C02", "C03", "C04", "C05", "C06", "C07", "C08", "C09", "C10", "C11", "C12", "C13", "C14", "C15", "C18"];
 
 pub fn mix_seed(base: u64, prop: &str, i: u64) -> u64 {
     let mut h = 0xcbf29ce484222325u64 ^ base.wrapping_mul(0x9E3779B97F4A7C15);
@@ -34,6 +34,7 @@ fn base_plan(prop: &str, profile: &str, seed: u64, rng: &mut Rng) -> Plan {
         strict_types: false,
         max_steps: crate::sim::DEFAULT_MAX_STEPS,
         knobs: BTreeMap::new(),
+        alt: None,
     }
 }
 
@@ -120,7 +121,13 @@ fn tnames(n: usize) -> Vec<String> {
 pub fn gen_plan(prop: &str, seed: u64) -> Plan {
     let mut rng = Rng::new(seed);
     // one plan in sixteen may draw value classes that trigger the open findings
-    let spicy = rng.below(16) == 0;
+    let mut spicy = rng.below(16) == 0;
+    // (triage aid: LSIM_SPICY=0 / 1 forces the choice)
+    match std::env::var("LSIM_SPICY").ok().as_deref() {
+        Some("0") => spicy = false,
+        Some("1") => spicy = true,
+        _ => {}
+    }
     set_spicy(spicy);
     set_packed_strings_ok(false);
     let mut plan = gen_plan_inner(prop, seed, &mut rng);
@@ -259,11 +266,14 @@ fn gen_plan_inner(prop: &str, seed: u64, rng: &mut Rng) -> Plan {
             let nt = 1 + rng.below(2) as usize;
             let mut tables = gen_tables(&mut rng, nt, &tnames(3), &plain_names(), 4);
             let mut id = 1;
-            let cycles = if rng.below(10) == 0 { 30 } else { 2 + rng.below(6) as usize };
+            // WAL segments per flush vary per plan from a handful to dozens (segment deletion and
+            // partition writing fan out over the io pool in slices)
+            let burst = *rng.pick(&[3u64, 3, 3, 8, 20, 40]);
+            let cycles = if rng.below(10) == 0 && burst <= 3 { 30 } else if burst > 8 { 1 + rng.below(3) as usize } else { 2 + rng.below(6) as usize };
             for _ in 0..cycles {
-                let k = 1 + rng.below(3);
+                let k = 1 + rng.below(burst);
                 for _ in 0..k {
-                    p.ops.push(Op::Ingest(gen_request(&mut rng, id, &mut tables, 10, false, false)));
+                    p.ops.push(Op::Ingest(gen_request(&mut rng, id, &mut tables, if burst > 8 { 4 } else { 10 }, false, false)));
                     id += 1;
                 }
                 if liveness && rng.below(2) == 0 {
@@ -320,6 +330,7 @@ fn gen_plan_inner(prop: &str, seed: u64, rng: &mut Rng) -> Plan {
             p.knobs.insert("rot_max_damage".into(), 500);
             p
         }
+        "C02" | "C03" | "C04" | "C05" | "C06" => gen_query_plan(prop, seed, &mut rng),
         "C10" => gen_c10(seed, &mut rng),
         "C11" => gen_c11(seed, &mut rng, false),
         "C12" => gen_c11(seed, &mut rng, true),
@@ -563,5 +574,187 @@ fn gen_c11(seed: u64, rng: &mut Rng, strings_only: bool) -> Plan {
     // afterwards everything still works: flush thread answers, content intact
     p.ops.push(Op::Flush);
     p.ops.push(Op::CheckAll);
+    p
+}
+
+
+// ---------------------------------------------------------------------------------------------
+// query properties (C02-C06): one logical table, seeded physical realisations, generated queries
+// ---------------------------------------------------------------------------------------------
+
+const QT: &str = "q";
+
+fn qcols() -> crate::sql::QCols {
+    crate::sql::QCols { ints: vec!["id".into(), "i1".into(), "i2".into(), "g".into()], floats: vec!["f1".into()], strs: vec!["s1".into(), "s2".into()] }
+}
+
+/// logical rows of the query table: (column name, cells)
+fn gen_logical(rng: &mut Rng, prop: &str, nrows: usize) -> Vec<(String, Vec<Cell>)> {
+    let mut cols: Vec<(String, Vec<Cell>)> = Vec::new();
+    cols.push(("id".into(), (0..nrows).map(|i| Cell::I(i as i64 * 3 + 1)).collect()));
+    // i1: small ints with nulls; its magnitude class changes along the table so that partitions differ in encoding
+    let seg = 1 + rng.below(nrows as u64) as usize;
+    let (c1, c2) = (*rng.pick(&[ColClass::IntU8, ColClass::IntU8Offset, ColClass::IntNeg]), *rng.pick(&[ColClass::IntU8, ColClass::IntU16, ColClass::IntU16Offset, ColClass::IntNeg]));
+    let pat = *rng.pick(&[NullPattern::None, NullPattern::Some, NullPattern::Some, NullPattern::Most, NullPattern::Trailing]);
+    let mut i1 = gen_cells(rng, c1, pat, seg.min(nrows), 0);
+    i1.extend(gen_cells(rng, c2, pat, nrows - seg.min(nrows), seg as u64));
+    cols.push(("i1".into(), i1));
+    let i2class = match prop {
+        "C06" => *rng.pick(&[ColClass::IntU8, ColClass::IntU16, ColClass::IntU32, ColClass::IntU32Offset, ColClass::IntFull, ColClass::IntNeg]),
+        "C04" => *rng.pick(&[ColClass::IntU8, ColClass::IntU16, ColClass::IntU32, ColClass::IntConst, ColClass::IntMonotone]),
+        _ => *rng.pick(&[ColClass::IntU8, ColClass::IntU16Offset, ColClass::IntU32, ColClass::IntNeg, ColClass::IntMonotone, ColClass::IntConst]),
+    };
+    let np = if spicy() { *rng.pick(&[NullPattern::None, NullPattern::None, NullPattern::Some]) } else { NullPattern::None };
+    cols.push(("i2".into(), gen_cells(rng, i2class, np, nrows, 0)));
+    // g: NULL-free low-cardinality int (grouping key)
+    cols.push(("g".into(), (0..nrows).map(|_| Cell::I(rng.range(0, 3))).collect()));
+    let np = *rng.pick(&[NullPattern::None, NullPattern::Some, NullPattern::Most]);
+    cols.push(("f1".into(), gen_cells(rng, ColClass::FloatDyadic, np, nrows, 0)));
+    let np = *rng.pick(&[NullPattern::None, NullPattern::Some, NullPattern::Alternating]);
+    cols.push(("s1".into(), gen_cells(rng, ColClass::StrLowCard, np, nrows, 0)));
+    let s2class = if spicy() { ColClass::StrHighCard } else { ColClass::StrUnicode };
+    let np = if spicy() { *rng.pick(&[NullPattern::None, NullPattern::Some]) } else { NullPattern::None };
+    cols.push(("s2".into(), gen_cells(rng, s2class, np, nrows, 0)));
+    if !spicy() {
+        // Mild plans: no request may carry a column that is entirely NULL (a partition in which a
+        // column has type Null trips open findings of the query engine): every third row holds a
+        // value and requests are cut at multiples of three rows.
+        for (name, cells) in cols.iter_mut() {
+            if name == "id" {
+                continue;
+            }
+            let donor = cells.iter().find(|c| !c.is_null()).cloned().unwrap_or(match name.as_str() {
+                "f1" => Cell::f(0.5),
+                "s1" | "s2" => Cell::S("k0".into()),
+                _ => Cell::I(7),
+            });
+            for i in (0..cells.len()).step_by(3) {
+                if cells[i].is_null() {
+                    cells[i] = donor.clone();
+                }
+            }
+        }
+    }
+    if prop == "C06" && rng.below(2) == 0 {
+        // SUM overflow arranged so that it depends on where the partials are merged: MAX-ish, 1, -1 ...
+        let big = (i64::MAX - 1) / 2;
+        let pattern = [big, big, 2, -2, -big, 5, big, -3];
+        let k = rng.below(8) as usize;
+        let v: Vec<Cell> = (0..nrows).map(|i| Cell::I(pattern[(i + k) % pattern.len()])).collect();
+        cols[2] = ("i2".into(), v);
+    }
+    cols
+}
+
+/// one physical realisation: the logical rows cut into requests, flushes in between, maybe cold
+fn realise(rng: &mut Rng, logical: &[(String, Vec<Cell>)], opts: &OptsSpec, first_id: &mut u32) -> Vec<Op> {
+    let nrows = logical[0].1.len();
+    let mut ops = Vec::new();
+    let mut cuts: Vec<usize> = Vec::new();
+    let k = match rng.below(4) {
+        0 => 1,
+        1 => nrows.min(2 + rng.below(3) as usize),
+        _ => 1 + rng.below(nrows.min(7) as u64) as usize,
+    };
+    for _ in 1..k {
+        let c = 1 + rng.below(nrows as u64 - 1).min(nrows as u64 - 2) as usize;
+        cuts.push(if spicy() { c } else { (c / 3) * 3 });
+    }
+    cuts.retain(|c| *c > 0);
+    cuts.push(nrows);
+    cuts.sort();
+    cuts.dedup();
+    let mut start = 0;
+    for end in cuts {
+        if end <= start {
+            continue;
+        }
+        let mut cols = Vec::new();
+        for (name, cells) in logical {
+            let slice: Vec<Cell> = cells[start..end].to_vec();
+            // a column that is entirely NULL in this request is sometimes left out
+            if slice.iter().all(|c| c.is_null()) && rng.below(2) == 0 && spicy() {
+                continue;
+            }
+            cols.push(ColBatch { name: name.clone(), cells: slice, repr: pick_repr(rng) });
+        }
+        let req = Request { id: *first_id, path: pick_path(rng), tables: vec![TableBatch { table: QT.into(), rows: end - start, cols }] };
+        *first_id += 1;
+        ops.push(Op::Ingest(req));
+        if rng.below(2) == 0 {
+            ops.push(Op::Flush);
+        }
+        start = end;
+    }
+    if opts.on_disk {
+        match rng.below(5) {
+            0 => {
+                ops.push(Op::Flush);
+                ops.push(Op::Restart);
+            }
+            1 => {
+                ops.push(Op::Flush);
+                ops.push(Op::Evict);
+            }
+            2 => ops.push(Op::Restart),
+            _ => {}
+        }
+    }
+    ops
+}
+
+fn gen_query_plan(prop: &str, seed: u64, rng: &mut Rng) -> Plan {
+    use crate::sql::QKind;
+    let mut p = base_plan(prop, "history", seed, rng);
+    p.check_each = false;
+    // a panic inside query execution is contained by the worker loop and fails that query: the
+    // query's own violation class (which names the query shape) reports it
+    p.knobs.insert("failing_requests_expected".into(), 1);
+    p.opts.on_disk = rng.below(4) != 0;
+    let nrows = match rng.below(6) {
+        0 => *rng.pick(&[1usize, 2, 8, 9, 16, 17]),
+        1..=3 => 3 + rng.below(20) as usize,
+        _ => 20 + rng.below(60) as usize,
+    };
+    let logical = gen_logical(rng, prop, nrows);
+    // the model table, to draw constants relative to the data
+    let mut m = Model::default();
+    m.apply(&Request { id: 0, path: IngestPath::Native, tables: vec![TableBatch { table: QT.into(), rows: nrows, cols: logical.iter().map(|(n, c)| ColBatch { name: n.clone(), cells: c.clone(), repr: Repr::Typed }).collect() }] });
+    let t = m.tables[QT].clone();
+    let cols = qcols();
+    let nq = match prop {
+        "C02" => 6 + rng.below(6),
+        "C03" => 12 + rng.below(18),
+        "C04" => 6 + rng.below(8),
+        "C05" => 8 + rng.below(10),
+        _ => 10 + rng.below(12),
+    };
+    let mut queries = Vec::new();
+    for _ in 0..nq {
+        let kind = match prop {
+            "C03" => QKind::Filter,
+            "C04" => QKind::Agg,
+            "C05" => QKind::Order,
+            "C06" => *rng.pick(&[QKind::Arith, QKind::Arith, QKind::SumOverflow, QKind::Agg]),
+            _ => *rng.pick(&[QKind::Filter, QKind::Order, QKind::Agg, QKind::Arith, QKind::Agg]),
+        };
+        queries.push(Op::Query(crate::sql::gen_query(rng, QT, &t, &cols, kind)));
+    }
+    let mut id = 1;
+    p.ops = realise(rng, &logical, &p.opts, &mut id);
+    p.ops.push(Op::CheckAll);
+    p.ops.extend(queries.iter().cloned());
+    if prop == "C02" {
+        // the second realisation: other options, other cuts, other maintenance, same rows and queries
+        let mut alt = base_plan(prop, "history", seed ^ 0xA17, rng);
+        alt.check_each = false;
+        alt.knobs.insert("failing_requests_expected".into(), 1);
+        alt.opts.on_disk = rng.below(3) != 0;
+        let mut id2 = 1;
+        alt.ops = realise(rng, &logical, &alt.opts, &mut id2);
+        alt.ops.push(Op::CheckAll);
+        alt.ops.extend(queries.iter().cloned());
+        p.alt = Some(Box::new(alt));
+    }
     p
 }
